@@ -324,7 +324,7 @@ _RULE_EXTRA = {
     "C13": "; every write position also as a single injected write error (the operation continues): consistency, error reported or harmless, re-run",
     "C14": "; 1 in 5 scenarios inject the fault into discard (crash or single error at each of its store operations) and discard again; commit faults as crash or single error",
     "C15": "; 1 in 8 logged sets run with a failing reflog insert (SQL trigger): must fail and change nothing",
-    "C16": "; 1 in 4 cases: a merge of 2..3 branches (256..955 rows) with a deleted block / block index of base or branch or reads failing after k, under a 20 s watchdog, and without fault compared with the one-processor outcome; the table index is compared too",
+    "C16": "; 1 in 4 cases: a merge of 2..3 branches (256..955 rows) with a deleted block / block index of base or branch or reads failing after k, under a 20 s watchdog, and without fault compared with the one-processor outcome; the table index is compared too; 1 in 4 of the rest: the commit command's ingest helper on a store that refuses the k-th write (must return the error, never hang); 1 in 5 of the rest: a progress bar created with total in {-1,0,1,5,10,1000}, moved by 0..4 Incr/SetTotal/SetCurrent calls, finished with Done() under a 20 s timer, compared with Model/PBar.lean",
     "C17": "; well-formed packfiles whose block decompresses but is invalid, or whose table object lies about its blocks (key index out of range, wrong row count, wrong width); every 4-byte window of small objects overwritten by a huge count; profiles declaring fewer field names; commit / table / profile bytes also read through the store getters",
     "C19": "; keyless tables over a tiny alphabet with the empty cell; the two outputs must agree also when keys repeat",
     "C20": "; 1 in 8: 256..335 hashes sharing a first byte added in one batch",
@@ -350,7 +350,7 @@ _LEVEL_EXTRA = {
     "C08": " Across wants: C08_all_wants (one whole call of enqueueWants: closed for every non-pending want, acceptable at every position, sound). Across the round's bookkeeping: C08_accepts_reachable_wants and C08_process_sound (Process accepts exactly the wants reachable from refs whatever the timestamps; every ack is a have that is an ancestor of a ref).",
     "C11": " Walks from any list of start points, repeats included, pop every ancestor exactly once (C11_walk_multi_each_once).",
     "C14": " Discard interrupted at any store operation touches no branch, reports success only when everything is gone, and completes on re-run (C14_discard_fault).",
-    "C16": " Error reporting never blocks when the channel has one slot per sender (C16_error_report_never_blocks; the capacities of the ingest and merge error channels are extracted facts).",
+    "C16": " Error reporting never blocks when the channel has one slot per sender (C16_error_report_never_blocks; the capacities of the ingest and merge error channels are extracted facts). Finishing a progress bar returns in every bar state (C16_pbar_done_returns, tied by the fact pbarDoneForcesCompletion).",
 }
 for _k, _v in _LEVEL_EXTRA.items():
     PROPS[_k]["level_text"] = PROPS[_k]["level_text"] + _v
